@@ -11,6 +11,7 @@ from __future__ import annotations
 
 import copy
 import logging
+import os
 import random
 
 import numpy as np
@@ -44,7 +45,7 @@ ASSUMPTIONS = [
 ]
 REAL_STUB = {"real": ["onnx_ir.serde (to_proto / from_proto)", "onnx_ir core"], "stub": [], "harness_extension_points": ["LazyTensor thunks"]}
 
-EDITS = ["drop_type", "drop_shape", "empty_optional_output", "none_input", "rename_value", "rename_node", "add_node", "remove_unused", "doc", "metadata", "attr_set", "attr_del", "retensor", "symbolic_shape", "symbolic_shape", "denotation", "denotation", "seq_type", "shadow_name", "shadow_name", "share_tensor", "share_tensor", "tensor_meta", "tensor_meta", "share_tensor_attr"]
+EDITS = ["drop_type", "drop_shape", "empty_optional_output", "none_input", "rename_value", "rename_node", "add_node", "remove_unused", "doc", "metadata", "attr_set", "attr_del", "retensor", "symbolic_shape", "symbolic_shape", "denotation", "denotation", "seq_type", "shadow_name", "shadow_name", "share_tensor", "share_tensor", "tensor_meta", "tensor_meta", "share_tensor_attr", "lazy_transient"]
 
 
 def gen_case(run_seed: int, tier: str, index: int = 0) -> dict:
@@ -235,6 +236,32 @@ def apply_edit(model, edit, fresh) -> str:
             t = iv.const_value
             out0.shape = ir.Shape(list(t.shape.numpy())) if out0.shape is not None else None
             out0.type = ir.TensorType(t.dtype) if out0.type is not None else None
+    elif kind == "lazy_transient":
+        # an initializer (or a Constant's tensor) becomes a lazily loaded tensor whose loader fails the first time(s)
+        inits = [x for g in model.graphs() for x in g.initializers.values() if x.const_value is not None and not isinstance(x.const_value, ir.LazyTensor)]
+        consts = [x for x in nodes if x.op_type == "Constant" and "value" in x.attributes and not x.attributes["value"].is_ref() and x.attributes["value"].type == ir.AttributeType.TENSOR and not isinstance(x.attributes["value"].value, ir.LazyTensor)]
+        pool = [("i", x) for x in inits] + [("c", x) for x in consts]
+        if not pool:
+            return "noop"
+        where_, x = pool[a % len(pool)]
+        old_t = x.const_value if where_ == "i" else x.attributes["value"].value
+        try:
+            arr = old_t.numpy().copy()
+        except Exception:  # noqa: BLE001
+            return "noop"
+        state = {"left": 1 + b % 2}
+
+        def loader(arr=arr, state=state, nm=old_t.name):
+            if state["left"] > 0:
+                state["left"] -= 1
+                raise OSError("injected: weights not reachable right now")
+            return ir.Tensor(arr, name=nm)
+
+        lz = ir.LazyTensor(loader, dtype=old_t.dtype, shape=ir.Shape(list(arr.shape)), name=old_t.name, cache=bool((b >> 2) % 2))
+        if where_ == "i":
+            x.const_value = lz
+        else:
+            x.attributes["value"] = ir.AttrTensor("value", lz)
     elif kind == "share_tensor":
         # two differently named initializers backed by ONE tensor object (e.g. tied weights)
         for g in model.graphs():
@@ -297,8 +324,60 @@ def apply_edit(model, edit, fresh) -> str:
     return "ok"
 
 
+ALT_SERIALIZERS = ["onnx_text", "onnx_text_no_initializers", "serialize_model", "graph", "functions", "save_file"]
+
+
+def _alt_serialize(model, which: str):
+    if which == "onnx_text":
+        ir.to_onnx_text(model)
+    elif which == "onnx_text_no_initializers":
+        ir.to_onnx_text(model, exclude_initializers=True)
+    elif which == "serialize_model":
+        ir.serde.serialize_model(model)
+    elif which == "graph":
+        ir.to_proto(model.graph)
+    elif which == "functions":
+        for f in model.functions.values():
+            ir.to_proto(f)
+    else:
+        import tempfile
+
+        d = tempfile.mkdtemp(prefix="verif-c03-", dir="/dev/shm" if os.path.isdir("/dev/shm") else None)
+        try:
+            ir.save(model, os.path.join(d, "m.onnx"))
+        finally:
+            import shutil
+
+            shutil.rmtree(d, ignore_errors=True)
+
+
+def alt_probe(model, w: World, inc, where: str, which: str):
+    """The other public serialization entry points are observers too: returned or raised, the model is what it was."""
+    if not isinstance(model, ir.Model):
+        return None
+    before = snapshot.snapshot(w, tensors=False)
+    outcome = "ok"
+    try:
+        _alt_serialize(model, which)
+    except Exception as e:  # noqa: BLE001
+        outcome = "raised " + type(e).__name__
+        inc("alt_serializer_raised_" + which)
+    inc("alt_serializer_" + which)
+    after = snapshot.snapshot(w, tensors=False)
+    if after != before:
+        d = snapshot.diff(before, after)
+        return {"clause": "serialization-changed-model", "detail": f"{where}: {which} ({outcome}) changed the model: {str(d[:2])[:400]}", "key": f"serialization-changed-model|{which}|{'raised' if outcome != 'ok' else 'ok'}"}
+    return None
+
+
 def probe(model, w: World, inc, where: str):
     """to_proto as an observer: no side effects (a) and idempotent output (b).  Returns (violation|None, proto bytes|None)."""
+    k = w.__dict__.get("_alt_k", 0)
+    w.__dict__["_alt_k"] = k + 1
+    if k % 2 == 0:
+        v_alt = alt_probe(model, w, inc, where, ALT_SERIALIZERS[(k // 2 + len(w.values)) % len(ALT_SERIALIZERS)])
+        if v_alt is not None:
+            return (v_alt, None)
     before = snapshot.snapshot(w, tensors=False)
     tens_before = [(type(t).__name__, int(t.dtype), tuple(iso._dim(d) for d in t.shape.dims)) for t in w.tensors]
     try:
